@@ -142,6 +142,13 @@ def TInst.classSuffix (t : TInst) (i : Nat) : Str :=
   | none => t.derived i
 
 /-- A function declaration of the input. -/
+structure Wrap where
+  c : Bool
+  f : Bool
+  py : Bool
+  lua : Bool
+  deriving Repr, DecidableEq
+
 structure Fn where
   name : Str                   -- ast.name ("ctor" for a constructor)
   nparams : Nat
@@ -154,13 +161,7 @@ structure Fn where
   isCtor : Bool
   usesT : Bool                 -- `have_template_args`: result/argument of a class template parameter type
   cppIf : Option Str           -- `cpp_if:` preprocessor condition of the declaration
-  deriving Repr, DecidableEq
-
-structure Wrap where
-  c : Bool
-  f : Bool
-  py : Bool
-  lua : Bool
+  wrapOpt : Option Wrap := none -- wrap_c / wrap_fortran / wrap_python / wrap_lua in the declaration's `options:`
   deriving Repr, DecidableEq
 
 inductive Gen where
@@ -205,8 +206,11 @@ def genericSuffixes : Nat → List (Option Str) → List Str
   | i, some s :: rest => s :: genericSuffixes (i + 1) rest
   | i, none :: rest => autoSuffix i :: genericSuffixes (i + 1) rest
 
+/-- `WrapFlags(node.options)`: the scope's wrap options unless the declaration overrides them. -/
+def Fn.w0 (sc : Scope) (f : Fn) : Wrap := f.wrapOpt.getD sc.w0
+
 def Fn.base (sc : Scope) (f : Fn) : Rec :=
-  { name := f.name, arity := f.nparams, fullArity := f.nparams, gen := .none, wrap := sc.w0,
+  { name := f.name, arity := f.nparams, fullArity := f.nparams, gen := .none, wrap := f.w0 sc,
     sfx := f.suffix.getD [], sfxLocal := f.suffix.isSome, tsfx := sc.tsfx0, overloaded := false,
     templated := !f.tinst.isEmpty || f.usesT, generics := genericSuffixes 0 f.generics,
     hasBuf := f.hasBuf, isCtor := f.isCtor,
@@ -218,7 +222,7 @@ def defaultClone (sc : Scope) (f : Fn) (k : Nat) : Rec :=
   { f.base sc with
     arity := f.nparams - f.ndefaults + k
     gen := .defaultArg
-    wrap := ⟨sc.w0.c, sc.w0.f, false, false⟩   -- `new.wrap.assign(c=node.wrap.c, fortran=node.wrap.fortran)`
+    wrap := ⟨(f.w0 sc).c, (f.w0 sc).f, false, false⟩   -- `new.wrap.assign(c=node.wrap.c, fortran=node.wrap.fortran)`
     sfx := match f.dsuffix[k]? with
       | some s => s
       | none => f.suffix.getD []
@@ -268,7 +272,7 @@ def variants (f : Fn) (c : Rec) : List Rec :=
 /-- The instantiated clone `template_function2` makes of a member that uses the class template
     parameter. -/
 def usesTClone (sc : Scope) (f : Fn) : Rec :=
-  { f.base sc with gen := .cxxTemplate, wrap := sc.w0, templated := false }
+  { f.base sc with gen := .cxxTemplate, wrap := f.w0 sc, templated := false }
 
 /-- First loop of `define_function_suffix` for one declared function.  A function template
     with default arguments is instantiated first; the default-argument variants are made per
@@ -288,10 +292,10 @@ def stage1Fn (sc : Scope) (f : Fn) : List Rec :=
     else (List.range f.ndefaults).map (defaultClone sc f) ++ [original sc f]
   else if f.ndefaults = 0 then
     { f.base sc with overloaded := true, wrap := ⟨false, false, false, false⟩ }
-      :: templateClones (f.base sc) sc.w0 0 f.tinst
+      :: templateClones (f.base sc) (f.w0 sc) 0 f.tinst
   else
     { f.base sc with overloaded := true, wrap := ⟨false, false, false, false⟩ }
-      :: (templateClones (f.base sc) sc.w0 0 f.tinst).flatMap (variants f)
+      :: (templateClones (f.base sc) (f.w0 sc) 0 f.tinst).flatMap (variants f)
 
 def stage1 (sc : Scope) (fs : List Fn) : List Rec := fs.flatMap (stage1Fn sc)
 
